@@ -235,6 +235,9 @@ type gOp struct {
 	Topic string   `json:"t,omitempty"`     // commit/fetch
 	Part  int32    `json:"p,omitempty"`
 	G     int      `json:"g,omitempty"` // which group of a pair sharing one coordinator (gRunPair)
+	// join: the session timeout this member announces from now on (a reconfigured / restarted client
+	// re-using its member id); 0 = keep announcing what it announced last (initially cfg.SessionMs[slot])
+	SessMs int64 `json:"sess,omitempty"`
 }
 
 type gIdent struct {
@@ -249,6 +252,7 @@ type gSlot struct {
 	JoinCode int16
 	Hist     []gIdent // every (member id, generation) pair this slot was ever told
 	Left     bool
+	SessMs   int64 // session timeout the slot currently announces (0 = cfg.SessionMs[slot])
 }
 
 // gIDInfo is what the observer knows about one member id from replies.
@@ -256,7 +260,7 @@ type gIDInfo struct {
 	Slot        int
 	LastJoinGen int32    // generation carried by its latest join reply
 	Sub         []string // subscription sent with its latest join
-	SessionMs   int64
+	SessionMs   int64    // session timeout announced with its latest join
 	LastJoinAt  time.Duration
 }
 
@@ -301,6 +305,7 @@ type gEvent struct {
 	ReqGen int32    `json:"req_gen,omitempty"`
 	ReqSub []string `json:"req_sub,omitempty"`
 	Ident  string   `json:"ident,omitempty"`
+	SessMs int64    `json:"sess,omitempty"` // join: SessionTimeoutMillis as sent
 
 	Code      int16               `json:"code"`
 	Gen       int32               `json:"gen,omitempty"`
@@ -635,8 +640,20 @@ func (w *gWorld) grow(topic string, by int) {
 	w.emit(&gEvent{K: "grow", Slot: -1, Topic: topic, Part: int32(cur + by)})
 }
 
+// slotSession is the session timeout slot i announces with its next join.
+func (w *gWorld) slotSession(i int) int64 {
+	if s := w.slots[i]; s.SessMs > 0 {
+		return s.SessMs
+	}
+	return w.cfg.SessionMs[i]
+}
+
 func (w *gWorld) doJoin(op gOp) *gEvent {
 	s := w.slots[op.Slot]
+	if op.SessMs > 0 {
+		s.SessMs = op.SessMs
+	}
+	sess := w.slotSession(op.Slot)
 	sub := op.Sub
 	if sub == nil {
 		sub = s.Sub
@@ -652,13 +669,13 @@ func (w *gWorld) doJoin(op gOp) *gEvent {
 	req.Group = w.cfg.Group
 	req.MemberID = id
 	req.ProtocolType = "consumer"
-	req.SessionTimeoutMillis = int32(w.cfg.SessionMs[op.Slot])
+	req.SessionTimeoutMillis = int32(sess)
 	req.RebalanceTimeoutMillis = int32(w.cfg.RebalMs[op.Slot])
 	p := kmsg.NewJoinGroupRequestProtocol()
 	p.Name = "range"
 	p.Metadata = gEncodeSubscription(sub)
 	req.Protocols = []kmsg.JoinGroupRequestProtocol{p}
-	ev := &gEvent{K: "join", Slot: op.Slot, ReqID: id, ReqSub: gSortedCopy(sub)}
+	ev := &gEvent{K: "join", Slot: op.Slot, ReqID: id, ReqSub: gSortedCopy(sub), SessMs: sess}
 	var resp *kmsg.JoinGroupResponse
 	var err error
 	if !w.call(func() { resp, err = w.coord.JoinGroup(context.Background(), req) }) {
@@ -693,7 +710,7 @@ func (w *gWorld) doJoin(op gOp) *gEvent {
 		}
 		info.LastJoinGen = resp.Generation
 		info.Sub = gSortedCopy(sub)
-		info.SessionMs = w.cfg.SessionMs[op.Slot]
+		info.SessionMs = sess
 		info.LastJoinAt = w.now()
 	}
 	w.emit(ev)
@@ -940,6 +957,7 @@ type gProfile struct {
 	PResub                                                                                float64 // probability that a re-join changes the subscription
 	PFresh                                                                                float64 // probability that a member holding an id joins with an empty one
 	PBigJump                                                                              float64 // probability that an advance is long enough to expire somebody
+	PResess                                                                               float64 // probability that a join announces a session timeout drawn afresh from Sessions (0: never; no PRNG draw then)
 	Sessions                                                                              []int64
 	Rebals                                                                                []int64
 	Cleanups                                                                              []int64
@@ -1033,6 +1051,9 @@ func gGenOps(rng *rand.Rand, p gProfile, cfg gConfig) []gOp {
 				hasSub[op.Slot] = true
 			}
 			op.Fresh = rng.Float64() < p.PFresh
+			if p.PResess > 0 && rng.Float64() < p.PResess {
+				op.SessMs = p.Sessions[rng.Intn(len(p.Sessions))]
+			}
 		case x < p.WJoin+p.WSync:
 			op.K = "sync"
 			ident()
@@ -1221,6 +1242,9 @@ func gOpsSig(w *gWorld) string {
 	for _, e := range w.log {
 		if e.K == "tick" {
 			continue
+		}
+		if e.K == "join" && e.SessMs != w.cfg.SessionMs[e.Slot] {
+			fmt.Fprintf(&sb, "s%d/", e.SessMs)
 		}
 		fmt.Fprintf(&sb, "%s%d:%d;", e.K, e.Slot, e.Code)
 	}
